@@ -4,6 +4,7 @@ import PdshVerif.Pcp.Variant
 import PdshVerif.Pcp.Feed
 import PdshVerif.Pcp.Spec
 import PdshVerif.Pcp.Links
+import PdshVerif.Pcp.MultiConfine
 
 /-! # C12  A copy peer can only write inside the destination it was given
 
@@ -36,6 +37,11 @@ initial file system and every option setting.
                          -- C12 as ONE statement about the final file system (receiver with a name rule):
                            every path not beneath the destination holds exactly what it held before.
 
+* `confined_many`        -- the second entry point, `dsh.c _pcp_server`: the receivers of an rpdcp run are THREADS of one
+                           process on one file system.  In the product automaton (Pcp/Multi.lean), whatever the streams
+                           and however their bytes interleave, every receiver hands only paths beneath ITS destination
+                           to modifying system calls (the invariant does not look at the file system, so the other
+                           receivers cannot disturb it).
 * `escapes_only_through_links`, `symlink_escape_witness`, `no_link_beneath_no_escape`
                          -- "never follows a received name out of it", with symbolic links that ALREADY EXIST inside
                            the destination (Pcp/Links.lean: the link-free model describes them by translation, `graftAll`
@@ -204,6 +210,27 @@ example : wfs (destPath (wopts .slashDotdot)) ≠ none ∧
   refine ⟨by decide +kernel, ?_⟩
   exact only_beneath_dest (wopts .slashDotdot) (by decide) wfs wstream2 _ (by decide +kernel)
     (Or.inl (by decide +kernel))
+
+/-! ## several receivers in one process (rpdcp) -/
+
+/-- **C12 for the rpdcp receiver threads.**  `os` are the options of the K receivers of the process (in rpdcp
+they all have the same destination, the local directory), every one with a name rule; `sched` is ANY interleaving of
+the bytes arriving on the K connections and of their ends.  Every path receiver `i` has handed to a successful
+modifying system call lies beneath the destination of receiver `i`. -/
+theorem confined_many (os : List Opts) (hr : ∀ o ∈ os, o.rule ≠ .none) (fs : FS) (sched : List Event)
+    (i : Nat) (o : Opts) (l : Local) (ho : os[i]? = some o)
+    (hl : ((Multi.init os fs).run os sched).conns[i]? = some l) :
+    Spec.Confined (destPath o) l.touched := by
+  intro p hp
+  exact (mgood_run os hr sched _ (mgood_init os fs) i o l ho hl).touched p hp
+
+/-- not vacuous: two receivers, the hostile stream `C0600 0 ../v` on the second connection is refused, the
+first connection's file arrives -/
+example :
+    (((Multi.init [wopts .slashDotdot, wopts .slashDotdot] wfs).run [wopts .slashDotdot, wopts .slashDotdot]
+        ((wstream2.map fun b => (1, some b)) ++ (wstream3.map fun b => (0, some b)))).conns.map (·.touched))
+      = [[[[119], [100], [101]]], []] := by
+  decide +kernel
 
 /-! ## symbolic links that already exist inside the destination -/
 
